@@ -232,7 +232,7 @@ pub fn run_sponge(op: &str, a: &[Arg], st: &mut Stats) -> Option<Out> {
                 None => o,
             }
         }
-        _ => return None,
+        _ => return super::c15bulk::run_sponge_more(op, a, st), // bulk / history ops (c15bulk.rs)
     })
 }
 
